@@ -1,8 +1,8 @@
 // ===================================================================================================
 // share(source): contract template, profile R as property C12 quantifies: sinks attach at top level, only
 // the sink being delivered to acts during a delivery, and the source answers from inside one of share's
-// own deliveries only when that delivery is the last of its fan-out (nested fan-out over a snapshot is
-// the recorded finding F4 and is outside this profile).
+// own deliveries only when that delivery is the last of its fan-out (nested fan-out, cross-sink activity, a sink
+// attaching inside a handler and a late upstream are outside this profile: bounded exploration on every run).
 // Bodies extracted from /repo/src/share.rs: constructor, attach closure, sink talkback, upstream handler.
 // ===================================================================================================
 //@op share
@@ -60,6 +60,21 @@ impl VecS {
         requires a < old(self).v@.len(), b == a + 1,
         ensures final(self).v@ == old(self).v@.remove(a as int),
     { self.v.remove(a); }
+    /// `extend(other.iter().cloned())`
+    pub fn extend_from(&mut self, o: &VecS)
+        ensures final(self).v@ == old(self).v@ + o.v@,
+    {
+        let mut k: usize = 0;
+        while k < o.v.len()
+            invariant k <= o.v@.len(), self.v@ == old(self).v@ + o.v@.subrange(0, k as int),
+            decreases o.v@.len() - k,
+        {
+            self.v.push(o.v[k]);
+            proof { assert(o.v@.subrange(0, k as int).push(o.v@[k as int]) =~= o.v@.subrange(0, k as int + 1)); assert(self.v@ =~= old(self).v@ + o.v@.subrange(0, k as int + 1)); }
+            k = k + 1;
+        }
+        proof { assert(o.v@.subrange(0, o.v@.len() as int) =~= o.v@); }
+    }
     /// `Vec::remove(i)`: panics when out of bounds; the removed element is returned
     pub fn remove(&mut self, a: usize) -> (r: SinkH)
         requires a < old(self).v@.len(),
@@ -77,27 +92,37 @@ pub struct G<T> {
     pub fan_k: int,              // deliveries of that fan-out begun so far
 }
 pub struct Cap { pub pullable: bool }
-pub struct Heap { pub sinks: VecS, pub source_talkback: Option<Tb>, pub alloc_sinks: bool, pub alloc_source_talkback: bool }
+pub struct Heap { pub sinks: VecS, pub ending: VecS, pub source_talkback: Option<Tb>, pub alloc_sinks: bool, pub alloc_ending: bool, pub alloc_source_talkback: bool }
 #[derive(Clone, Copy)] pub struct Cell_sinks {}
 impl Cell_sinks {
-    pub fn alloc(h: &mut Heap, v: VecS) -> (r: Cell_sinks) ensures final(h).sinks == v, final(h).alloc_sinks, final(h).source_talkback == old(h).source_talkback, final(h).alloc_source_talkback == old(h).alloc_source_talkback { h.sinks = v; h.alloc_sinks = true; Cell_sinks {} }
+    pub fn alloc(h: &mut Heap, v: VecS) -> (r: Cell_sinks) ensures *final(h) == (Heap { sinks: v, alloc_sinks: true, ..*old(h) }) { h.sinks = v; h.alloc_sinks = true; Cell_sinks {} }
     /// ArcSwap::load yields a snapshot of the current list
     pub fn load(&self, h: &Heap) -> (r: VecS) ensures r == h.sinks { clone_val(&h.sinks) }
     pub fn load_full(&self, h: &Heap) -> (r: VecS) ensures r == h.sinks { clone_val(&h.sinks) }
-    pub fn store(&self, h: &mut Heap, v: VecS) ensures final(h).sinks == v, final(h).alloc_sinks == old(h).alloc_sinks, final(h).source_talkback == old(h).source_talkback, final(h).alloc_source_talkback == old(h).alloc_source_talkback { h.sinks = v; }
+    pub fn store(&self, h: &mut Heap, v: VecS) ensures *final(h) == (Heap { sinks: v, ..*old(h) }) { h.sinks = v; }
+    pub fn swap(&self, h: &mut Heap, v: VecS) -> (r: VecS) ensures r == old(h).sinks, *final(h) == (Heap { sinks: v, ..*old(h) }) { let r = clone_val(&h.sinks); h.sinks = v; r }
+}
+/// the sinks of a subscription that is over which have not been told its end yet
+#[derive(Clone, Copy)] pub struct Cell_ending {}
+impl Cell_ending {
+    pub fn alloc(h: &mut Heap, v: VecS) -> (r: Cell_ending) ensures *final(h) == (Heap { ending: v, alloc_ending: true, ..*old(h) }) { h.ending = v; h.alloc_ending = true; Cell_ending {} }
+    pub fn load(&self, h: &Heap) -> (r: VecS) ensures r == h.ending { clone_val(&h.ending) }
+    pub fn load_full(&self, h: &Heap) -> (r: VecS) ensures r == h.ending { clone_val(&h.ending) }
+    pub fn store(&self, h: &mut Heap, v: VecS) ensures *final(h) == (Heap { ending: v, ..*old(h) }) { h.ending = v; }
+    pub fn swap(&self, h: &mut Heap, v: VecS) -> (r: VecS) ensures r == old(h).ending, *final(h) == (Heap { ending: v, ..*old(h) }) { let r = clone_val(&h.ending); h.ending = v; r }
 }
 #[derive(Clone, Copy)] pub struct Cell_source_talkback {}
 impl Cell_source_talkback {
-    pub fn alloc(h: &mut Heap, v: Option<Tb>) -> (r: Cell_source_talkback) ensures final(h).source_talkback == v, final(h).alloc_source_talkback, final(h).sinks == old(h).sinks, final(h).alloc_sinks == old(h).alloc_sinks { h.source_talkback = v; h.alloc_source_talkback = true; Cell_source_talkback {} }
+    pub fn alloc(h: &mut Heap, v: Option<Tb>) -> (r: Cell_source_talkback) ensures *final(h) == (Heap { source_talkback: v, alloc_source_talkback: true, ..*old(h) }) { h.source_talkback = v; h.alloc_source_talkback = true; Cell_source_talkback {} }
     pub fn load(&self, h: &Heap) -> (r: Option<Tb>) ensures r == h.source_talkback { h.source_talkback }
     pub fn load_full(&self, h: &Heap) -> (r: Option<Tb>) ensures r == h.source_talkback { h.source_talkback }
-    pub fn swap(&self, h: &mut Heap, v: Option<Tb>) -> (r: Option<Tb>) ensures r == old(h).source_talkback, final(h).source_talkback == v, final(h).alloc_source_talkback == old(h).alloc_source_talkback, final(h).sinks == old(h).sinks, final(h).alloc_sinks == old(h).alloc_sinks { let r = h.source_talkback; h.source_talkback = v; r }
-    pub fn store(&self, h: &mut Heap, v: Option<Tb>) ensures final(h).source_talkback == v, final(h).alloc_source_talkback == old(h).alloc_source_talkback, final(h).sinks == old(h).sinks, final(h).alloc_sinks == old(h).alloc_sinks { h.source_talkback = v; }
+    pub fn swap(&self, h: &mut Heap, v: Option<Tb>) -> (r: Option<Tb>) ensures r == old(h).source_talkback, *final(h) == (Heap { source_talkback: v, ..*old(h) }) { let r = h.source_talkback; h.source_talkback = v; r }
+    pub fn store(&self, h: &mut Heap, v: Option<Tb>) ensures *final(h) == (Heap { source_talkback: v, ..*old(h) }) { h.source_talkback = v; }
 }
 
 pub open spec fn cap_ok(c: Cap) -> bool { !c.pullable }
 pub open spec fn g_init<T>() -> G<T> { G { dns: Seq::empty(), att: Seq::empty(), pos: Seq::empty(), ups: Seq::empty(), fan_on: false, fan_snap: Seq::empty(), fan_k: 0 } }
-#[verifier::external_body] pub fn fresh_heap() -> (h: Heap) ensures !h.alloc_sinks && !h.alloc_source_talkback { unimplemented!() }
+#[verifier::external_body] pub fn fresh_heap() -> (h: Heap) ensures !h.alloc_sinks && !h.alloc_ending && !h.alloc_source_talkback { unimplemented!() }
 pub open spec fn alive(p: Up) -> bool { p == Up::Live || p == Up::Subscribing }
 pub open spec fn cur<T>(g: G<T>) -> UpLink<T> { g.ups.last() }
 pub open spec fn up_alive<T>(g: G<T>) -> bool { g.ups.len() > 0 && alive(cur(g).phase) }
@@ -118,7 +143,8 @@ pub open spec fn inv_safe<T>(h: Heap, g: G<T>, c: Cap) -> bool {
     &&& (forall|k: int| 0 <= k < ids::<T>(h).len() ==> (#[trigger] ids::<T>(h)[k]).id < g.dns.len())
     &&& g.pos.len() == g.dns.len()
     &&& (g.ups.len() > 0 && cur(g).phase == Up::Live ==> h.source_talkback == Some(Tb::Up))
-    &&& h.alloc_sinks && h.alloc_source_talkback
+    &&& h.alloc_sinks && h.alloc_ending && h.alloc_source_talkback
+    &&& h.ending.v@.len() == 0 // nobody is owed an end outside the hand-round of one
 }
 pub open spec fn inv_rc<T>(h: Heap, g: G<T>, c: Cap) -> bool {
     &&& (ids::<T>(h).len() > 0 <==> up_alive(g))
@@ -325,7 +351,7 @@ impl UpSrc {
 /// `share(source)`: the constructor allocates the state shared by all subscriptions (by design: C13 exempts share)
 pub fn share__ctor<T>(h: &mut Heap, g: &mut Ghost<G<T>>, c: &Cap, source: UpSrc) -> (r: Tok_share)
     requires
-        !old(h).alloc_sinks && !old(h).alloc_source_talkback, old(g)@ == g_init::<T>(), cap_ok(*c),
+        !old(h).alloc_sinks && !old(h).alloc_ending && !old(h).alloc_source_talkback, old(g)@ == g_init::<T>(), cap_ok(*c),
     ensures
         INV!(*final(h), final(g)@, *c),
         final(g)@ == old(g)@,
@@ -348,7 +374,7 @@ pub fn share__attach<T>(h: &mut Heap, g: &mut Ghost<G<T>>, c: &Cap, message: Mes
         !up_alive(old(g)@) ==> final(g)@.ups.len() > old(g)@.ups.len(), /* @C12 attaching while no sink is attached starts a fresh upstream subscription */
         up_alive(old(g)@) ==> final(g)@.ups.len() == old(g)@.ups.len(), /* @C12 at most one upstream subscription */
 {
-    let source = UpSrc {}; let sinks = Cell_sinks {}; let source_talkback = Cell_source_talkback {};
+    let source = UpSrc {}; let sinks = Cell_sinks {}; let ending = Cell_ending {}; let source_talkback = Cell_source_talkback {};
     proof { g@ = G { dns: g@.dns.push(dn_init()), att: g@.att.push(true), pos: g@.pos.push(ids::<T>(*h).len() as int), ..g@ }; }
     BODY!("share");
 }
@@ -367,7 +393,7 @@ pub fn share__sink_talkback<T>(h: &mut Heap, g: &mut Ghost<G<T>>, c: &Cap, sink:
         (message is Terminate || message is Error) ==> final(g)@.dns[sink.id as int].phase == Dn::EndedBySink && !final(g)@.att[sink.id as int], /* @C03 a detached sink hears nothing more */
         (message is Terminate || message is Error) && ids::<T>(*final(h)).len() == 0 ==> !up_alive(final(g)@), /* @C12 the upstream is disposed when the last attached sink detaches */
 {
-    let sinks = Cell_sinks {}; let source_talkback = Cell_source_talkback {};
+    let sinks = Cell_sinks {}; let ending = Cell_ending {}; let source_talkback = Cell_source_talkback {};
     proof {
         g@ = set_dn(g@, sink.id as int, dn_recv(g@.dns[sink.id as int], message));
         if !(message is Pull) { g@ = G { att: g@.att.update(sink.id as int, false), pos: shift(g@.pos, g@.pos[sink.id as int]), ..g@ }; }
@@ -395,7 +421,7 @@ pub fn share__upstream<T>(h: &mut Heap, g: &mut Ghost<G<T>>, c: &Cap, sink: Sink
         message is Terminate ==> (forall|k: int| 0 <= k < ids::<T>(*old(h)).len() ==> (#[trigger] final(g)@.dns[ids::<T>(*old(h))[k].id as int]).phase == Dn::EndedByUs), /* @C12 every attached sink receives the termination */
         message is Error ==> (forall|k: int| 0 <= k < ids::<T>(*old(h)).len() ==> (#[trigger] final(g)@.dns[ids::<T>(*old(h))[k].id as int]).phase == Dn::EndedByUs && final(g)@.dns[ids::<T>(*old(h))[k].id as int].err == Some(message->Error_0)), /* @C05 every attached sink receives the upstream error, unchanged */
 {
-    let sinks = Cell_sinks {}; let source_talkback = Cell_source_talkback {};
+    let sinks = Cell_sinks {}; let ending = Cell_ending {}; let source_talkback = Cell_source_talkback {};
     let talkback = Tb::Sink(sink);
     let ghost snap = ids::<T>(*h);
     let ghost g_in = g@;
@@ -406,30 +432,47 @@ pub fn share__upstream<T>(h: &mut Heap, g: &mut Ghost<G<T>>, c: &Cap, sink: Sink
     BODY!("anon");
     proof { if !(message is Handshake) { g@ = G { fan_on: false, ..g@ }; } }
 }
+// loop 0: the end of the upstream subscription is handed round (every sink has been detached at once and is owed it)
 INVARIANT!("anon", 0) {
     invariant
         __it0.v@ == snap, g@.dns.len() == g_in.dns.len(), g@.ups.len() == g_in.ups.len(),
         __k0 < snap.len() ==> g@.fan_on && g@.fan_snap == snap && g@.fan_k == __k0,
         mono(*old(h), old(g)@, *h, g@),
         snap_ok(snap, g_in),
-        message is Data ==> INV!(*h, g@, *c),
-        message is Data ==> (forall|j: int| __k0 <= j < snap.len() ==> g@.dns[(#[trigger] snap[j]).id as int] == g_in.dns[snap[j].id as int]),
-        message is Data ==> (forall|j: int| 0 <= j < __k0 && j < snap.len() ==> g@.dns[(#[trigger] snap[j]).id as int].data.len() > g_in.dns[snap[j].id as int].data.len()),
-        message is Data ==> (__k0 >= snap.len() || quiet(g@)),
-        !(message is Data) ==> ending(*h, g@, *c, snap, __k0 as int),
-        !(message is Data) ==> (forall|j: int| 0 <= j < __k0 && j < snap.len() ==> g@.dns[(#[trigger] snap[j]).id as int].phase == Dn::EndedByUs),
-        message is Error ==> (forall|j: int| 0 <= j < __k0 && j < snap.len() ==> g@.dns[(#[trigger] snap[j]).id as int].err == Some(message->Error_0)),
-        message is Terminate ==> (forall|j: int| 0 <= j < __k0 && j < snap.len() ==> g@.dns[(#[trigger] snap[j]).id as int].err is None),
+        !(message is Data) && !(message is Handshake),
+        ending_inv(*h, g@, *c, snap, __k0 as int), /* @C12,C02 the list is emptied at once; the sinks still owed the end are exactly the ones of the snapshot not told yet */
+        (forall|j: int| 0 <= j < __k0 && j < snap.len() ==> g@.dns[(#[trigger] snap[j]).id as int].phase == Dn::EndedByUs), /* @C12 every attached sink receives the termination */
+        message is Error ==> (forall|j: int| 0 <= j < __k0 && j < snap.len() ==> g@.dns[(#[trigger] snap[j]).id as int].err == Some(message->Error_0)), /* @C05 every attached sink receives the upstream error, unchanged */
+        message is Terminate ==> (forall|j: int| 0 <= j < __k0 && j < snap.len() ==> g@.dns[(#[trigger] snap[j]).id as int].err is None), /* @C05 a completion is not turned into an error */
+}
+// loop 1: a datum is fanned out over a snapshot of the list
+INVARIANT!("anon", 1) {
+    invariant
+        __it1.v@ == snap, g@.dns.len() == g_in.dns.len(), g@.ups.len() == g_in.ups.len(),
+        __k1 < snap.len() ==> g@.fan_on && g@.fan_snap == snap && g@.fan_k == __k1,
+        mono(*old(h), old(g)@, *h, g@),
+        snap_ok(snap, g_in),
+        message is Data,
+        INV!(*h, g@, *c),
+        (forall|j: int| __k1 <= j < snap.len() ==> g@.dns[(#[trigger] snap[j]).id as int] == g_in.dns[snap[j].id as int]),
+        (forall|j: int| 0 <= j < __k1 && j < snap.len() ==> g@.dns[(#[trigger] snap[j]).id as int].data.len() > g_in.dns[snap[j].id as int].data.len()), /* @C12 every attached sink receives every datum */
+        (__k1 >= snap.len() || quiet(g@)),
 }
 /// the snapshot lists known, pairwise distinct sinks that were live when the fan-out began
 pub open spec fn snap_ok<T>(snap: Seq<SinkH>, g_in: G<T>) -> bool {
     &&& (forall|j: int| 0 <= j < snap.len() ==> (#[trigger] snap[j]).id < g_in.dns.len() && g_in.dns[snap[j].id as int].phase == Dn::Live)
     &&& (forall|i: int, j: int| 0 <= i < j < snap.len() ==> (#[trigger] snap[i]).id != (#[trigger] snap[j]).id)
 }
-/// the upstream has ended: the listed sinks are being told one after the other, the list is cleared afterwards
-pub open spec fn ending<T>(h: Heap, g: G<T>, c: Cap, snap: Seq<SinkH>, k: int) -> bool {
-    &&& inv_safe(h, g, c) && inv_term(h, g, c)
-    &&& ids::<T>(h) == snap
+/// the upstream has ended: the list of attached sinks has been emptied at once, the sinks of the snapshot are told
+/// one after the other; those still owed the end are `snap[k..]`, kept in the cell `ending`
+pub open spec fn ending_inv<T>(h: Heap, g: G<T>, c: Cap, snap: Seq<SinkH>, k: int) -> bool {
+    &&& cap_ok(c) && g.att.len() == g.dns.len() && g.pos.len() == g.dns.len()
+    &&& h.alloc_sinks && h.alloc_ending && h.alloc_source_talkback
+    &&& inv_term(h, g, c)
+    &&& ids::<T>(h).len() == 0
+    &&& 0 <= k <= snap.len() && h.ending.v@.len() == snap.len() - k
+    &&& (forall|j: int| 0 <= j < snap.len() - k ==> (#[trigger] h.ending.v@[j]) == snap[k + j])
+    &&& (k < snap.len() ==> h.ending.v@[0] == snap[k])
     &&& g.ups.len() > 0 && !alive(cur(g).phase) && cur(g).phase != Up::Idle
     &&& (forall|j: int| 0 <= j < g.ups.len() - 1 ==> !alive((#[trigger] g.ups[j]).phase))
     &&& (forall|j: int| 0 <= j < g.ups.len() ==> (#[trigger] g.ups[j]).phase != Up::Idle)
